@@ -48,7 +48,9 @@ GROUP = {"backoff_delay": "Recon", "should_attempt_reconnect": "Recon", "record_
          "reg_handle_reg3": "Reg", "reg_handle_reg_err": "Reg", "reg_handle_reg_ngp": "Reg",
          "reg_clear_pending_if_timed_out": "Reg", "reg_build_reg1_for": "Reg", "reg_reg1_if_ngp_immediate": "Reg",
          "reg_handle_reg2": "Reg",
-         "trk_insert": "Trk", "trk_get": "Trk"}
+         "trk_insert": "Trk", "trk_get": "Trk",
+         "regime_from_bps": "Batch", "regime_batch_size": "Batch", "batch_queue_packet": "Batch",
+         "batch_set_regime": "Batch", "conn_recompute_batch_regime": "Batch"}
 # groups with a canonical signature: parameters = the self fields read in struct declaration order, then the
 # opaque getter inputs, then the Rust parameters in signature order; outputs in the same order.  (The four
 # earlier groups keep the order of first use in the body, which the lemmas of Proofs/Leaf{Recon,Live,Cong,
@@ -56,7 +58,7 @@ GROUP = {"backoff_delay": "Recon", "should_attempt_reconnect": "Recon", "record_
 # two same-typed arguments of a wrapper can move a parameter under the lemma that applies it by position.
 CANONICAL_GROUPS = {"Stall", "Recov", "Cfg", "Reg", "Trk", "Batch", "Crit", "Cc", "Cls"}
 # groups whose definitions may use f64 values (header additionally imports Floats, FConstants, Select)
-FLOAT_GROUPS = {"Stall", "Recov"}
+FLOAT_GROUPS = {"Stall", "Recov", "Batch"}
 CORE = "crates/srtla-core/src/"
 
 # (coq name, file, impl type or None for a free fn, fn name)
@@ -104,6 +106,12 @@ LEAVES = [
     # sequence tracker ring (C05): a function of the one element that is read / written (<local>_slot says which)
     ("trk_insert", "src/sender/sequence.rs", "SequenceTracker", "insert"),
     ("trk_get", "src/sender/sequence.rs", "SequenceTracker", "get"),
+    # batch sender (C01): regime thresholds and the size-flush test
+    ("regime_from_bps", CORE + "connection/batch_send.rs", "BatchRegime", "from_bps"),
+    ("regime_batch_size", CORE + "connection/batch_send.rs", "BatchRegime", "batch_size"),
+    ("batch_queue_packet", CORE + "connection/batch_send.rs", "BatchSender", "queue_packet"),
+    ("batch_set_regime", CORE + "connection/batch_send.rs", "BatchSender", "set_regime"),
+    ("conn_recompute_batch_regime", CORE + "connection/mod.rs", "SrtlaConnection", "recompute_batch_regime"),
 ]
 
 # leaves whose equivalence lemma mentions leaf_<name>_asserts: the definition is emitted even when the
@@ -767,6 +775,22 @@ def slot_field(env, sname, f):
     return nm, ctx.ptype[nm]
 
 
+def vec_field(ctx, path):
+    return re.match(r"Vec<", ctx.field_type(path) or "") is not None
+
+
+def vec_len_name(ctx, path):
+    """a `Vec<_>` field is represented by its length only: input/output <path>_len"""
+    nm = "_".join(path) + "_len"
+    FIELD_PATHS[(id(ctx), nm)] = list(path) + ["len()"]
+    if nm not in ctx.ptype:
+        ctx.ptype[nm] = "usize"
+        ctx.params.append((nm, "Z"))
+        ctx.notes.append("%s = self.%s.len(): of a Vec only the length is translated (push = +1, the element pushed is not)"
+                         % (nm, ".".join(path)))
+    return nm
+
+
 def find_callee(recv, name, ctx):
     """`self.m(..)` or `self.<component path>.m(..)` where m is an already translated method of the
     receiver's type -> (registry entry, component path)"""
@@ -780,6 +804,12 @@ def find_callee(recv, name, ctx):
 
 def find_free_callee(qualified):
     parts = qualified.split("::")
+    if len(parts) > 1 and (parts[-2], parts[-1]) in REGISTRY:
+        # associated function `Type::f(..)` without a receiver (all its inputs are arguments)
+        callee = REGISTRY[(parts[-2], parts[-1])]
+        if all(o[0] == "arg" for o in callee["origins"]):
+            return callee
+        return None
     callee = REGISTRY.get((None, parts[-1]))
     if callee is None:
         return None
@@ -797,7 +827,11 @@ def call_actuals(callee, base, args, env):
         raise TErr("call of %s with %d arguments" % (callee["coq"], len(args)))
     actual = []
     for origin in callee["origins"]:
-        if origin[0] == "field":
+        if origin[0] == "this":
+            if base is None:
+                raise TErr("method of an enum value called without a receiver")
+            actual.append(ev(field_expr(base), env)[0])         # the enum value itself: the receiver field
+        elif origin[0] == "field":
             if base is None:
                 raise TErr("free function with self inputs")
             if origin[1][-1].endswith("()"):
@@ -1030,6 +1064,12 @@ def ev(e, env):
             return nm, rty
         if name == "len" and not args and recv[0] == "var" and env.v.get(recv[1], (None, None))[1] == "slice":
             return recv[1] + "_len", "usize"             # length of a `&[u8]` parameter: an input of its own
+        if name == "len" and not args and path_of(recv) is not None and vec_field(ctx, path_of(recv)):
+            nm = vec_len_name(ctx, path_of(recv))
+            if env.cur(nm) is not None:
+                return env.cur(nm)
+            env.setcur(nm, (nm, "usize"))
+            return nm, "usize"
         if name == "is_empty":
             p = path_of(recv)
             if p is None:
@@ -1139,6 +1179,8 @@ def effect_call(e, env):
     ctx = env.ctx
     if e[0] == "call" and e[1] == "store" and path_of(e[2]) is not None and len(e[3]) == 2 and is_ordering(e[3][1]):
         return ("store", e[2], e[3][0])
+    if e[0] == "call" and e[1] == "push" and len(e[3]) == 1 and path_of(e[2]) is not None and vec_field(ctx, path_of(e[2])):
+        return ("push", vec_len_name(ctx, path_of(e[2])))
     if e[0] == "call" and e[2] == ("var", "self") and (ctx.self_type, e[1]) in OPAQUE_EFFECTS:
         return ("delegate", "call_" + e[1], e[3])
     if e[0] == "call" and e[1] == "copy_from_slice" and path_of(e[2]) is not None and len(e[3]) == 1 \
@@ -1220,7 +1262,9 @@ def collect_assigned(stmts, env, acc):
                 acc.append(n)
         elif s[0] == "exprstmt" and effect_call(s[1], env) is not None:
             eff = effect_call(s[1], env)
-            if eff[0] in ("delegate", "copy"):
+            if eff[0] == "push":
+                names = [eff[1]]
+            elif eff[0] in ("delegate", "copy"):
                 env.ctx.pseudo.setdefault(eff[1], "None")
                 if eff[0] == "copy":
                     FIELD_PATHS[(id(env.ctx), eff[1])] = list(eff[4])
@@ -1378,6 +1422,13 @@ def run_stmts(stmts, env, outs, has_ret):
         return "(match %s with Some %s => %s | None => %s end)" % (sc, lv, a, b)
     if k == "exprstmt" and effect_call(s[1], env) is not None:
         eff = effect_call(s[1], env)
+        if eff[0] == "push":
+            n = eff[1]
+            cur = env.cur(n, (n, "usize"))[0]
+            env.ctx.fresh += 1
+            tmp = "%s_%d" % (n, env.ctx.fresh)
+            env.setcur(n, (tmp, "usize"))
+            return "(let %s := (%s + 1) in %s)" % (tmp, cur, run_stmts(rest, env, outs, has_ret))
         if eff[0] == "delegate":
             # the callee may change anything: nothing of self may be read or written after it on this path
             if not (not rest or rest[0] == ("return", None)):
@@ -1566,7 +1617,9 @@ def translate(coq_name, rel, impl, fn, srcs, structs, consts):
     fnames = [n for n, _ in fparams]
     atomics = getattr(ctx, "atomic_names", set())
     for n, _ in plist:
-        if n in fnames:
+        if n == "this" and impl in ENUMS:
+            origins.append(("this",))
+        elif n in fnames:
             origins.append(("arg", fpos[n]))
         else:
             origins.append(("field", FIELD_PATHS[(id(ctx), n)], n in atomics))
